@@ -271,7 +271,12 @@ inline int64_t rot_q(double deg) {  // micro-degrees in [0, 360e6)
     if (q >= 360000000LL) q -= 360000000LL;
     return q;
 }
-inline int64_t mag_q(double mag) { return llround(mag * 1e9); }
+// magnifications travel as reals that hold every double exactly: compared to the last bit
+inline std::string mag_q(double mag) {
+    char b[40];
+    snprintf(b, sizeof b, "%.17g", mag);
+    return b;
+}
 
 inline std::string tag_str(uint32_t layer, uint32_t type) {
     return "L" + std::to_string(layer) + "/" + std::to_string(type);
@@ -336,7 +341,7 @@ inline std::string label_line(Mode mode, uint32_t layer, uint32_t ttype, const s
     append_pt(s, origin);
     if (mode == GDS) {
         s += " a=" + std::to_string(anchor) + " rot=" + std::to_string(rot_q(rot_deg)) +
-             " mag=" + std::to_string(mag_q(mag)) + " xr=" + (xrefl ? "1" : "0");
+             " mag=" + mag_q(mag) + " xr=" + (xrefl ? "1" : "0");
     }
     s += rep_str(rep) + props;
     return s;
@@ -346,7 +351,7 @@ inline std::string label_line(Mode mode, uint32_t layer, uint32_t ttype, const s
 inline std::string ref_line(const std::string& target, bool xrefl, double rot_deg, double mag,
                             int64_t x1024, int64_t y1024, const std::string& props) {
     std::string s = "R ->" + bytes_str(target) + " xr=" + (xrefl ? "1" : "0") +
-                    " rot=" + std::to_string(rot_q(rot_deg)) + " mag=" + std::to_string(mag_q(mag)) +
+                    " rot=" + std::to_string(rot_q(rot_deg)) + " mag=" + mag_q(mag) +
                     " @";
     auto fix = [](int64_t v) {
         std::string r = std::to_string(v / 1024);
